@@ -486,6 +486,22 @@ def pickSurvivor (r : Result) (k : Nat) : Option Node :=
     (l[k % l.length]?).map survivor
   | _ => none
 
+/-- `while (e.numChildren() > 0 && !e.child(0).isText()) e = e.child(0);` — the handle moves down the
+    first-child chain while the first child is an element -/
+def descend : Node → Node
+  | .text i p t => .text i p t
+  | .elem i p t a [] => .elem i p t a []
+  | .elem i p t a (.text j q s :: r) => .elem i p t a (.text j q s :: r)
+  | .elem _ _ _ _ (.elem j q u b cs :: _) => descend (.elem j q u b cs)
+
+/-- `Xml e = decode(x);` + the loop above (each `e = e.child(0)` drops the last handle to the element that
+    contained the new `e`: `NodeBase::operator=` acquires first, commit e5e901a, and `~_Xml` clears the
+    parent pointer), then `e` -/
+def descendSurvivor (r : Result) : Option Node :=
+  match r with
+  | .node n => some (survivor (descend n))
+  | _ => none
+
 /-- `!e` for the returned object: a text node or an element with an empty tag counts as null -/
 def Result.isNull : Result → Bool
   | .node (.elem _ _ tag _ _) => tag.isEmpty
